@@ -336,7 +336,7 @@ impl Check for C06 {
     }
     fn default_runs(&self, tier: Tier) -> u64 {
         match tier {
-            Tier::Quick => 4000,
+            Tier::Quick => 8000,
             Tier::Thorough => 150000,
         }
     }
